@@ -376,6 +376,11 @@ def _gen_spec_once(rng, pf):
             else:
                 p = new_par("pj", "proportion")
                 add_edge(j, b, p["name"])
+                if rng.random() < 0.12:
+                    # two parallel links from the junction into the same compartment (a cell of the transition matrix may hold
+                    # several parameters): each carries its own share
+                    p2 = new_par("pj", "proportion")
+                    add_edge(j, b, p2["name"])
 
     # junctions that are fed by nobody and not initialised are legal but inert; junctions that were chosen as
     # destinations of an earlier junction get their inflow from there.  Remove junction->junction edges into
